@@ -786,6 +786,29 @@ def pick_race(rng, g, v, profile):
             other['c'] = w
         else:
             other['cs'] = [w] + [c for c in other['cs'] if c['uuid'] != cu][:1]
+    # directed variant: a POST writing TWO existing consumers that are at different generations (each carried correctly)
+    # against a write of one of them with the same generation: the compare-and-swap of each consumer must be its own
+    mposts = [o for o in out if o['op'] == 'alloc_post' and o['mv'] >= 28]
+    if mposts and len(holders) >= 2 and len(ws) >= 2 and rng.random() < profile.get('p_two_consumers', 0.15):
+        gens_ = {}
+        for c_ in holders:
+            gens_.setdefault(v.consumers[c_]['gen'], []).append(c_)
+        if len(gens_) >= 2:
+            SHAPES.append('post-two-consumers-different-generations')
+            ga, gb = rng.sample(sorted(gens_), 2)
+            ca, cb = rng.choice(gens_[ga]), rng.choice(gens_[gb])
+            mp = mposts[0]
+            ea = g.consumer_req(v, mp['mv'], ca, empty_ok=False, share=3)
+            eb = g.consumer_req(v, mp['mv'], cb, empty_ok=False, share=3)
+            ea['gen'], eb['gen'] = ga, gb
+            mp['cs'] = [ea, eb] if rng.random() < 0.5 else [eb, ea]
+            other = [o for o in ws if o is not mp][0]
+            w = g.consumer_req(v, other['mv'], ca, empty_ok=False, share=3)
+            w['gen'] = ga
+            if other['op'] == 'alloc_put':
+                other['c'] = w
+            else:
+                other['cs'] = [w]
     # directed variant: a POST naming several consumers whose LATER entry is rejected by `ensure_consumer` (stale
     # consumer generation) after an EARLIER entry - an existing consumer with allocations, carrying its current generation -
     # has been validated: the rejection must leave that consumer alone
